@@ -38,7 +38,7 @@ type Script struct {
 var cRoute = vt.New("C09", "graph-routing")
 
 func genRoute(t *rapid.T) Script {
-	s := Script{Topo: topo.Gen(t, topo.GenOpts{Invalid: 25, Profiles: true})}
+	s := Script{Topo: topo.Gen(t, topo.GenOpts{Invalid: 25, Profiles: true, Routing: true})}
 	plan := topo.Evaluate(s.Topo)
 	for range plan.Recv {
 		s.Emit = append(s.Emit, rapid.SampledFrom([]string{"fresh", "readonly", "reuse", "fresh", "readonly"}).Draw(t, "emit"))
@@ -280,6 +280,36 @@ func runRoute(s Script) (bool, string, *vt.Finding) {
 	}
 	if convert {
 		cRoute.Class("signal-converting-connector")
+	}
+	// routing-style connector instances by number of downstream pipelines
+	for _, k := range plan.Conn {
+		f := strings.SplitN(k, ":", 3)
+		ft := strings.SplitN(f[1], ">", 2)
+		for _, c := range tp.Connectors {
+			if c.ID != f[2] || c.Route == "" {
+				continue
+			}
+			n := 0
+			for _, pl := range tp.Pipelines {
+				if pl.Signal != ft[1] {
+					continue
+				}
+				for _, r := range pl.Receivers {
+					if r == c.ID {
+						n++
+					}
+				}
+			}
+			d := fmt.Sprintf("%d", n)
+			if n >= 3 {
+				d = ">=3"
+			}
+			same := "cross-signal"
+			if ft[0] == ft[1] {
+				same = "same-signal"
+			}
+			cRoute.Class("routing-connector-instance:"+c.Route+"/downstream:"+d, "routing-connector-instance:"+same)
+		}
 	}
 	for _, pl := range tp.Pipelines {
 		if pl.Signal == "profiles" {
